@@ -455,6 +455,13 @@ package parser
 // inside the statement the switch is the innermost break target: breakStack == old(breakStack) ++ [statement]
 //@   loopinv [C20:stack-balanced-inv] SameStack(p.continueStack, old(p.continueStack)) && statement != nil && len(p.breakStack) == len(old(p.breakStack)) + 1
 //@     && p.breakStack[len(old(p.breakStack))] == statement && (forall k int :: {p.breakStack[k]} (0 <= k && k < len(old(p.breakStack))) ==> p.breakStack[k] == old(p.breakStack)[k])
+//@   ensures [C13,C20:dup-case] result3 == nil ==> (forall a int, b int :: {result0.Cases[a], result0.Cases[b]} (0 <= a && a < b && b < len(result0.Cases) && !result0.Cases[a].IsDefault && !result0.Cases[b].IsDefault) ==> result0.Cases[a].Value.Literal != result0.Cases[b].Value.Literal)
+//@   ensures [C20:one-default] result3 == nil ==> (forall a int, b int :: {result0.Cases[a], result0.Cases[b]} (0 <= a && a < b && b < len(result0.Cases)) ==> !(result0.Cases[a].IsDefault && result0.Cases[b].IsDefault))
+//@   loop 2
+//@     invariant [C13,C20:dup-case-inv] caseValues != nil && fresh(caseValues) && fresh(statement) && (forall a int :: {statement.Cases[a]} (0 <= a && a < len(statement.Cases)) ==> (statement.Cases[a] != nil && fresh(statement.Cases[a]) && (!statement.Cases[a].IsDefault ==> (indom(caseValues, statement.Cases[a].Value.Literal) && caseValues[statement.Cases[a].Value.Literal]))))
+//@     invariant [C13,C20:dup-case-inv2] forall a int, b int :: {statement.Cases[a], statement.Cases[b]} (0 <= a && a < b && b < len(statement.Cases) && !statement.Cases[a].IsDefault && !statement.Cases[b].IsDefault) ==> statement.Cases[a].Value.Literal != statement.Cases[b].Value.Literal
+//@     invariant [C20:one-default-inv] (statement.DefaultCase == nil ==> (forall a int :: {statement.Cases[a]} (0 <= a && a < len(statement.Cases)) ==> !statement.Cases[a].IsDefault))
+//@       && (forall a int, b int :: {statement.Cases[a], statement.Cases[b]} (0 <= a && a < b && b < len(statement.Cases)) ==> !(statement.Cases[a].IsDefault && statement.Cases[b].IsDefault))
 //@ end
 
 //@ func (p *Parser) parseConditionExpression
@@ -505,7 +512,7 @@ package parser
 //@ func (p *Parser) parsePoryswitchStatement
 //@   include ParseFrame
 //@   exit [C12:select-stmts] result2 == nil ==> (indom(cases, switchValue) ? result0 == cases[switchValue] : (indom(cases, "_") ? result0 == cases["_"] : len(result0) == 0))
-//@   exit [C12:select-imp] result2 == nil ==> (indom(caseImpData, switchValue) ? result1 == caseImpData[switchValue] : (indom(caseImpData, "_") ? result1 == caseImpData["_"] : result1 == nil))
+//@   exit [C12:select-imp] result2 == nil ==> (indom(cases, switchValue) ? result1 == caseImpData[switchValue] : (indom(cases, "_") ? result1 == caseImpData["_"] : result1 == nil))
 //@   exit [C12:no-case] (result2 == nil && p.enableEnvironmentErrors) ==> (indom(cases, switchValue) || indom(cases, "_"))
 //@   ensures [C06:slot] result2 == nil ==> (ImpOK(result1) && (result1 == nil || fresh(result1)))
 //@   ensures [C20:stack-balanced] result2 == nil ==> (SameStack(p.breakStack, old(p.breakStack)) && SameStack(p.continueStack, old(p.continueStack)))
@@ -514,6 +521,8 @@ package parser
 
 //@ func (p *Parser) parsePoryswitchStatementCases
 //@   include ParseFrame
+//@   ensures [C12:same-keys] result2 == nil ==> (result0 != nil && result1 != nil && (forall key string :: {indom(result0, key)} {indom(result1, key)} indom(result0, key) == indom(result1, key)))
+//@   loopinv [C12:same-keys-inv] statementCases != nil && fresh(statementCases) && (forall key string :: {indom(statementCases, key)} {indom(impDatas, key)} indom(statementCases, key) == indom(impDatas, key))
 //@   loopinv [C06:slot-inv] impDatas != nil && fresh(impDatas) && (forall key string :: {indom(impDatas, key)} indom(impDatas, key) ==> (ImpOK(impDatas[key]) && (impDatas[key] == nil || fresh(impDatas[key]))))
 //@   ensures [C06:slot] result2 == nil ==> (forall key string :: {indom(result1, key)} indom(result1, key) ==> (ImpOK(result1[key]) && (result1[key] == nil || fresh(result1[key]))))
 //@   ensures [C20:stack-balanced] result2 == nil ==> (SameStack(p.breakStack, old(p.breakStack)) && SameStack(p.continueStack, old(p.continueStack)))
